@@ -532,6 +532,17 @@ package fun
 //@   ensures aborts: errIs(err, io_EOF) ==> calls(wcancel) > old(calls(wcancel))
 //@   ensures goes: !errIs(err, io_EOF) ==> calls(wcancel) == old(calls(wcancel))
 
+// The per-item body of Map: the transform's failure is classified (and recorded)
+// by CanContinueOnError; "may not continue" is answered with io.EOF - the one
+// answer that the error filter above turns into a cancellation of the group -
+// and never with the failure itself.
+//@ func (Transform).mapPullProcess$1
+//@   props C03
+//@   option noframe
+//@   option ghost any
+//@   requires mpf != nil && output != nil && opts != nil && opts.ErrorHandler != nil && ctx != nil
+//@   ensures onlyeof: result == nil || result == io_EOF
+
 // GenerateParallel: the per-call generator wrapper. A value passes through; a
 // failure after which the worker may continue becomes a skip; otherwise the
 // wrapper answers io.EOF and cancels the group's context.
